@@ -89,6 +89,7 @@ def write_project(root, k):
     open(os.path.join(root, "lib", "geo%d.nano" % k), "w").write(
         'import "shp%d.nano"\n\npub fn double_area(w: int, h: int) -> int {\n    return (* 2 (rect_area w h))\n}\n\nshadow double_area {\n    assert (== (double_area 2 3) 12)\n}\n' % k)
     open(os.path.join(root, "lib", "shp%d.nano" % k), "w").write(
+        'extern fn shp_blit(%s) -> int\n\n' % ", ".join("a%d: int" % i for i in range(17 + k)) +
         'pub fn rect_area(w: int, h: int) -> int {\n    return (* w h)\n}\n\nshadow rect_area {\n    assert (== (rect_area 2 3) 6)\n}\n')
 
 
@@ -142,6 +143,10 @@ def limit_programs():
                 L.append("struct S%d { v: int }" % i)
         L.append("fn main() -> int {\n    let z: S%d = S%d { v: 7 }\n    let w: S%d = S%d { v: 1, inner: z }\n    (println w.inner.v)\n    return 0\n}\nshadow main { assert (== 1 1) }" % (n - 1, n - 1, n - 2, n - 2))
         out.append(("structs%d" % n, "\n".join(L) + "\n"))
+    # extern declarations wider than any fixed per-declaration table (declared, need not be called)
+    for n in (1, 15, 16, 17, 20, 33, 48, 64, 65, 100, 200):
+        out.append(("extern%d" % n, "extern fn blit_%d(%s) -> int\nextern fn tagmix_%d(%s) -> string\nfn main() -> int {\n    (println %d)\n    return 0\n}\nshadow main { assert (== 1 1) }\n"
+                    % (n, ", ".join("p%d: int" % i for i in range(n)), n, ", ".join("q%d: %s" % (i, ["int", "string", "bool", "float"][i % 4]) for i in range(n)), n)))
     return out
 
 
